@@ -2,7 +2,7 @@
    Encoders (ljh22_record, ljh3_record, off_record, off_header_tail, publish, bstep, brun ...) are the mirror
    model of the Go code (Model.v); decoders and checkers (parse_*, C05_bench_check, accepted22, off_prefix,
    sst_before ...) are the independent specification (Spec.v, which does not import Model.v). *)
-From Dastard Require Import Common.ZX C05.Types C05.Model C05.Spec C05.RoundTrip C05.Proofs.
+From Dastard Require Import Common.ZX C05.Types C05.Model C05.Spec C05.RoundTrip C05.Proofs C05.Writers.
 Open Scope Z_scope.
 
 (* LJH 2.2: for ALL sub-frame parameters, ALL record lengths L >= 0 and ALL lists of WriteRecord argument tuples
@@ -146,6 +146,86 @@ Proof.
     intros c pj bs desc [<- | []] H. discriminate H.
   - repeat constructor; cbn; try lia; discriminate.
 Qed.
+
+(* Level (i): the writers of packages ljh and off driven directly.  For ALL renderers, ALL struct fields [h] whose
+   constants are the format's (version, word size, format strings) and whose time base is printed faithfully, and
+   ALL call sequences  CreateFile; WriteHeader; (WriteRecord | Flush | CreateFile again [| WriteHeader again])*; Close
+   the file on disk passes the writer-level checker: it holds exactly the records whose WriteRecord returned nil. *)
+Theorem writer22_passes_checker :
+  forall (render : hdr22 -> list Z) h tbn tbd mid,
+    hdr22_ok h tbn tbd h = true -> 0 <= h22_nsamp h ->
+    Forall (fun o => match o with
+                     | WRec r => zlen (r_data r) = h22_nsamp h -> rec22_fits (h22_sfdiv h) (h22_sfoff h) (h22_nsamp h) r
+                     | WFlush | WCreate => True
+                     | WHeader | WClose => False
+                     end) mid ->
+    let ops := WCreate :: WHeader :: mid ++ [WClose] in
+    let r := w_run (w22_step render h) w_init ops in
+    C05_w22_check h tbn tbd (combine ops (snd r))
+                  (match w_file (fst r) with Some b => split_file render h b | None => FAbsent end) = true.
+Proof. exact writer22_passes_checker_lemma. Qed.
+Print Assumptions writer22_passes_checker.
+
+Example writer22_passes_checker_nonvacuous :
+  let h := mkh22 2 2 4 2 2 1 8 [99] 6 5 4 2 2 1 3 1 5000000 (-8) 0 0 [] [76] in
+  hdr22_ok h 1 20000000 h = true /\
+  Forall (fun o => match o with
+                   | WRec r => zlen (r_data r) = h22_nsamp h -> rec22_fits (h22_sfdiv h) (h22_sfoff h) (h22_nsamp h) r
+                   | WFlush | WCreate => True
+                   | WHeader | WClose => False
+                   end) [WRec (mkrec 7 (-5) 1 [0; 65535; 258] 0 0 0 []); WCreate; WRec (mkrec 8 9 1 [1; 2] 0 0 0 []); WFlush].
+Proof.
+  split; [vm_compute; reflexivity|].
+  repeat constructor; cbn; try lia; try discriminate.
+Qed.
+
+Theorem writer3_passes_checker :
+  forall (render : hdr3 -> list Z) h tbn tbd mid,
+    hdr3_ok h tbn tbd h = true ->
+    Forall (fun o => match o with
+                     | WRec r => rec3_fits r
+                     | WFlush | WCreate | WHeader => True
+                     | WClose => False
+                     end) mid ->
+    let ops := WCreate :: WHeader :: mid ++ [WClose] in
+    let r := w_run (w3_step render h) w_init ops in
+    C05_w3_check h tbn tbd (combine ops (snd r))
+                 (match w_file (fst r) with Some b => split_file render h b | None => FAbsent end) = true.
+Proof. exact writer3_passes_checker_lemma. Qed.
+Print Assumptions writer3_passes_checker.
+
+Theorem writeroff_passes_checker :
+  forall (render : hdroff -> list Z) h pj bs tbn tbd mid,
+    hdroff_ok h tbn tbd h = true ->
+    ho_nbases h = m_rows pj -> ho_prows h = m_rows pj -> ho_pcols h = m_cols pj ->
+    ho_brows h = m_rows bs -> ho_bcols h = m_cols bs ->
+    matrix_wf pj -> matrix_wf bs ->
+    Forall (fun o => match o with
+                     | WRec r => zlen (r_coefs r) = ho_nbases h -> recoff_fits (ho_nbases h) r
+                     | WFlush | WCreate | WHeader => True
+                     | WClose => False
+                     end) mid ->
+    let ops := WCreate :: WHeader :: mid ++ [WClose] in
+    let r := w_run (woff_step render h pj bs) w_init ops in
+    C05_woff_check h tbn tbd pj bs (combine ops (snd r))
+                   (match w_file (fst r) with Some b => split_file render h b | None => FAbsent end) = true.
+Proof. exact writeroff_passes_checker_lemma. Qed.
+Print Assumptions writeroff_passes_checker.
+
+(* subframe_count = frame * divisions + offset and timestamp_us = ns / 1000 (toward zero), read back by the
+   decoder from the very bytes PublishData's LJH 2.2 WriteRecord call appends, for EVERY record of the right
+   length whose fields fit (negative times included: Z.quot, like Go's "/") *)
+Theorem subframe_count_and_timestamp_us :
+  forall h s r,
+    w_created s = true -> 0 <= h22_nsamp h -> zlen (r_data r) = h22_nsamp h ->
+    in_i64 (r_frame r * h22_sfdiv h + h22_sfoff h) -> in_i64 (r_ns r) -> Forall in_u16 (r_data r) ->
+    exists bytes,
+      w_bytes (fst (w22_record h s (rec22_args r))) = w_bytes s ++ bytes /\
+      snd (w22_record h s (rec22_args r)) = WOk /\
+      parse_ljh22 (h22_nsamp h) bytes =
+      POk [mkd22 (r_frame r * h22_sfdiv h + h22_sfoff h) (Z.quot (r_ns r) 1000) (r_data r)].
+Proof. exact published_record_fields_lemma. Qed.
+Print Assumptions subframe_count_and_timestamp_us.
 
 (* The code before the fix (SetLJH3 alone: no way to pass row and column): a channel at row 2 / column 1 of a
    4 x 2 array gets an LJH 3 header saying row 0 / column 0, and the checker rejects it. *)
